@@ -305,3 +305,8 @@ func B2I(c bool) int {
 	}
 	return 0
 }
+
+// ConstrainHash restricts the engine's uninterpreted hash model: the low `bits`
+// bits of every hash value lie in `allowed` (a stated bound on the explored
+// collision patterns). No effect natively.
+func ConstrainHash(bits int, allowed ...int) {}
